@@ -915,6 +915,8 @@ def iter_table_ok(t):
     if not t['rows']:
         return False
     for fn, ft in t['fields']:
+        if ft == 'late':
+            continue        # deliberately null throughout the inference sample (C06): inferred as 'any'
         if ft in ('array',):
             return False
         if all(r.get(fn) is None for r in t['rows'][:100]):
